@@ -116,6 +116,8 @@ def check(rep, tier, seed):
     sfiles = []
     for k in range(12 if tier == "quick" else 120):
         cols, recs = random_callset(rng, nsamples=rng.randrange(3, 9), p_skip=0.1)
+        if k % 2 == 0:
+            cols = ["#" + c if i % 2 == 0 else c for i, c in enumerate(cols)]          # sample names may begin with '#': no line of the file is a comment
         sm = random_map(rng, cols, allow_unnamed=False)
         spaced = {l: "New %s land" % l for l in dict.fromkeys(l for _, l in sm)}
         path = os.path.join(WORK, "c01_samples_%d.txt" % k)
